@@ -554,8 +554,23 @@ func (w *vecWorld) step(r *prng.Rand, cs *fw.Case, nvar, order int) (string, str
 // checkLive: a live iterator only ever yields ascending indices that are
 // currently non-zero in the model, with the model's value.
 func (w *vecWorld) checkLive(li *liveIt, first bool) *failure {
+	// successor semantics: the iterator must now be at the smallest currently
+	// non-zero position behind the one it yielded last (none: exhausted)
+	exp := -1
+	for k := max(0, li.last+1); k < len(w.m); k++ {
+		if !isZero(snap.Scalar(w.m[k]), w.t.IsInt) {
+			exp = k
+			break
+		}
+	}
 	if !li.it.Ok() {
+		if exp >= 0 {
+			return &failure{"live-iterator-skip", fmt.Sprintf("live iterator exhausted after %d, but position %d holds a non-zero element", li.last, exp)}
+		}
 		return nil
+	}
+	if exp >= 0 && li.it.Index() > exp {
+		return &failure{"live-iterator-skip", fmt.Sprintf("live iterator moved from %d to %d and skipped the non-zero element at %d", li.last, li.it.Index(), exp)}
 	}
 	i := li.it.Index()
 	if i <= li.last {
